@@ -15,19 +15,89 @@ SCHEMA_DIR = "specification/schema"
 GEN = "scripts/generate_schema.py"
 
 
+class _Fold(ast.NodeTransformer):
+    """substitute loop variables and fold f-strings / concatenations of constants"""
+    def __init__(self, env):
+        self.env = env
+
+    def visit_Name(self, node):
+        if isinstance(node.ctx, ast.Load) and node.id in self.env:
+            return self.env[node.id]
+        return node
+
+    def visit_JoinedStr(self, node):
+        self.generic_visit(node)
+        parts = []
+        for v in node.values:
+            if isinstance(v, ast.Constant) and isinstance(v.value, str):
+                parts.append(v.value)
+            elif isinstance(v, ast.FormattedValue) and isinstance(v.value, ast.Constant) and v.format_spec is None and v.conversion == -1:
+                parts.append(str(v.value.value))
+            else:
+                return node
+        return ast.copy_location(ast.Constant("".join(parts)), node)
+
+    def visit_BinOp(self, node):
+        self.generic_visit(node)
+        if isinstance(node.op, ast.Add) and isinstance(node.left, ast.Constant) and isinstance(node.right, ast.Constant) \
+                and isinstance(node.left.value, str) and isinstance(node.right.value, str):
+            return ast.copy_location(ast.Constant(node.left.value + node.right.value), node)
+        return node
+
+
+def _expand(stmts, env, consts):
+    """the statements with `for <targets> in <literal tuple/list>` loops unrolled (loop variables substituted)"""
+    import copy
+    out = []
+    for s in stmts:
+        if isinstance(s, ast.Assign) and len(s.targets) == 1 and isinstance(s.targets[0], ast.Name) and isinstance(s.value, (ast.Tuple, ast.List)):
+            consts[s.targets[0].id] = _Fold(env).visit(copy.deepcopy(s.value))
+        if isinstance(s, ast.For):
+            it = s.iter
+            if isinstance(it, ast.Name) and it.id in consts:
+                it = consts[it.id]
+            if isinstance(it, (ast.Tuple, ast.List)) and not s.orelse:
+                for elt in it.elts:
+                    e2 = dict(env)
+                    if isinstance(s.target, ast.Name):
+                        e2[s.target.id] = elt
+                    elif isinstance(s.target, (ast.Tuple, ast.List)) and isinstance(elt, (ast.Tuple, ast.List)) and len(elt.elts) == len(s.target.elts):
+                        for t, v in zip(s.target.elts, elt.elts):
+                            if isinstance(t, ast.Name):
+                                e2[t.id] = v
+                    else:
+                        return None
+                    sub = _expand(s.body, e2, consts)
+                    if sub is None:
+                        return None
+                    out += sub
+                continue
+            return None
+        if isinstance(s, (ast.If, ast.With)):
+            sub = _expand(s.body, env, consts)
+            if sub is None:
+                return None
+            out += sub
+            continue
+        out.append(_Fold(env).visit(copy.deepcopy(s)))
+    return out
+
+
 def _gen_script(ctx):
     p = ctx.root / GEN
     if not p.exists():
         ctx.broken(f"anchor vanished: {GEN}")
     tree = ast.parse(p.read_text())
     configs: dict[str, dict] = {}
-    calls = []
     for n in ast.walk(tree):
         if isinstance(n, ast.Assign) and len(n.targets) == 1 and isinstance(n.targets[0], ast.Name) \
                 and isinstance(n.value, ast.Call) and u(n.value.func).endswith("ConfigDict"):
             configs[n.targets[0].id] = {k.arg: ast.literal_eval(k.value) for k in n.value.keywords}
-        if isinstance(n, ast.Call) and u(n.func) == "write_schema":
-            calls.append(n)
+    # the calls the script performs, with literal loops unrolled (a refactoring of four calls into a loop is the same script)
+    flat = _expand([s_ for s_ in tree.body if not isinstance(s_, (ast.FunctionDef, ast.ClassDef, ast.Import, ast.ImportFrom))], {}, {})
+    if flat is None:
+        ctx.broken(f"{GEN}: a loop over something other than a literal sequence drives write_schema")
+    calls = [n for s_ in flat for n in ast.walk(s_) if isinstance(n, ast.Call) and u(n.func) == "write_schema"]
     ws = [f for f in tree.body if isinstance(f, ast.FunctionDef) and f.name == "write_schema"]
     if not ws:
         ctx.broken(f"anchor vanished: write_schema in {GEN}")
@@ -46,10 +116,14 @@ def run(ctx) -> None:
     sv = sh.functions.get("serialization_version")
     if sv is None:
         ctx.broken("anchor vanished: serialization_version")
-    rb = real_body(sv)
     version = None
-    if len(rb) == 1 and isinstance(rb[0], ast.Return) and isinstance(rb[0].value, ast.Constant) and isinstance(rb[0].value.value, str):
-        version = rb[0].value.value
+    vps = ctx.paths("hugr._serialization.serial_hugr.serialization_version")
+    if len(vps) == 1 and vps[0].kind == "return":
+        v = vps[0].value
+        if isinstance(v, ast.Name) and isinstance(sh.assigns.get(v.id), ast.Constant):
+            v = sh.assigns[v.id]          # a module-level constant
+        if isinstance(v, ast.Constant) and isinstance(v.value, str):
+            version = v.value
     ctx.check(version is not None, "C17.R2", "hugr._serialization.serial_hugr.serialization_version", sh.path, sv.lineno,
               "serialization_version() must return a string literal", sv, detail=f"version literal {version!r}")
     if version is None:
@@ -97,19 +171,28 @@ def run(ctx) -> None:
             ctx.check(strict, "C17.R2", f"generate_schema config of {p}", gen_path, c.lineno,
                       "the strict files must be generated with strict=True", c)
     # filename = f"{name_prefix}_{version}.json"; title; also-roots
-    fn_ok = any(isinstance(n, ast.JoinedStr) and u(n).replace('"', "'") == "f'{name_prefix}_{version}.json'" for n in ast.walk(ws))
+    from ..model import Module as _M
+    gm = _M(prog, "scripts.generate_schema", gen_path)
+    cws = ctx.canon.fn(ws, gm, None)
+    wparams = [a.arg for a in ws.args.args]
+    from ..tmpl import T, tfind, tmatch
+    fn_ok = any(tmatch(n, T(f"f'{{{wparams[1]}}}_{{{wparams[2]}.get_version()}}.json'")) is not None for n in ast.walk(cws) if isinstance(n, ast.JoinedStr))
     ctx.check(fn_ok, "C17.R2", "generate_schema.write_schema filename", gen_path, ws.lineno,
               "file name must be <prefix>_<version>.json", ws)
     also_names = None
     title = None
-    for n in ast.walk(ws):
-        if isinstance(n, ast.Assign) and u(n.targets[0]) == "schemas" and isinstance(n.value, ast.List):
-            also_names = [u(x) for x in n.value.elts]
+    for n in ast.walk(cws):
         if isinstance(n, ast.Call) and u(n.func) == "models_json_schema":
             t = kwarg(n, "title")
             title = ast.literal_eval(t) if t is not None else None
-    if also_names is None or also_names[0] != "schema":
-        ctx.broken("generate_schema.write_schema: `schemas = [schema, ...]` list not found")
+            a0 = n.args[0] if n.args else None
+            if isinstance(a0, (ast.ListComp, ast.GeneratorExp)) and len(a0.generators) == 1 and isinstance(a0.generators[0].iter, (ast.List, ast.Tuple)) \
+                    and u(a0.elt) == f"({u(a0.generators[0].target)}, 'validation')":
+                also_names = [u(x) for x in a0.generators[0].iter.elts]
+            elif isinstance(a0, ast.List) and all(isinstance(x, ast.Tuple) and len(x.elts) == 2 and u(x.elts[1]) == "'validation'" for x in a0.elts):
+                also_names = [u(x.elts[0]) for x in a0.elts]
+    if also_names is None or also_names[0] != wparams[2]:
+        ctx.broken("generate_schema.write_schema: the list of schema roots handed to models_json_schema was not found")
     files = {}
     for p, r, e, _, c in triples:
         f = ctx.root / SCHEMA_DIR / f"{p}_{version}.json"
@@ -187,12 +270,14 @@ def r4_config_plumbing(ctx) -> None:
         m = c.methods.get("_pydantic_rebuild")
         if m is None:
             ctx.broken(f"anchor vanished: {cname}._pydantic_rebuild")
-        env = tsubseq(real_body(m), ["L_c = dict(ops_classes)", "L_c[cls.__name__] = cls", "model_rebuild(L_c, config=config, **kwargs)"])
+        cm = ctx.cfn(f"{mn}.{cname}._pydantic_rebuild")
+        env = tsubseq(cm.body, ["L_c = dict(ops_classes)", "L_c[cls.__name__] = cls", "model_rebuild(L_c, config=config, **kwargs)"]) or \
+            tsubseq(cm.body, ["L_c = dict(ops_classes)", "L_c[cls.__name__] = cls", "model_rebuild(L_c, config=config or ConfigDict(), **kwargs)"])
         ctx.check(env is not None, "C17.R2", f"{cname}._pydantic_rebuild: root class receives the configuration", c.module.path, m.lineno,
                   f"{cname}._pydantic_rebuild must rebuild the op/type classes AND {cname} itself with the given config (my_classes[cls.__name__] = cls; "
                   "model_rebuild(my_classes, config=config, **kwargs)): otherwise the root model keeps the default `extra` while the published schema says "
                   "additionalProperties false/true", m)
-        ctx.check(thas(m, "config = config or ConfigDict()") or thas(m, "config or ConfigDict()"), "C17.R2", f"{cname}._pydantic_rebuild: default config", c.module.path, m.lineno, "", m)
+        ctx.check(thas(cm, "config = config or ConfigDict()") or thas(cm, "config or ConfigDict()"), "C17.R2", f"{cname}._pydantic_rebuild: default config", c.module.path, m.lineno, "", m)
     tys = prog.module("hugr._serialization.tys")
     mr = tys.functions.get("model_rebuild")
     if mr is None:
